@@ -40,6 +40,15 @@ pub const A_PEEK_MUT: u32 = 1 << 23;
 pub const A_CORE: u32 = A_PUSH | A_PUSH_INCDEC | A_CHANGE | A_CHANGE_BY | A_REMOVE | A_POP | A_POP_IF;
 pub const A_BULK: u32 = A_RETAIN | A_RETAIN_MUT | A_ITER_MUT | A_EXTEND | A_APPEND | A_CLEAR_DRAIN | A_CONVERT;
 
+/// Resident set size of this process in GB (0 if unknown); engines stop and report a cap beyond RSS_CAP_GB.
+pub fn rss_gb() -> f64 {
+    std::fs::read_to_string("/proc/self/statm")
+        .ok()
+        .and_then(|s| s.split_whitespace().nth(1).and_then(|x| x.parse::<f64>().ok()))
+        .map_or(0.0, |pages| pages * 4096.0 / 1e9)
+}
+pub const RSS_CAP_GB: f64 = 24.0;
+
 pub const PAYLOAD_A: u8 = 1;
 pub const PAYLOAD_B: u8 = 2;
 pub const PAYLOAD_C: u8 = 3;
@@ -817,6 +826,19 @@ impl<'a, H: HB> Explorer<'a, H> {
             let sh = (hash64(key) as usize) % SHARDS;
             seen[sh].lock().unwrap().insert(key.clone(), (0, 0)).is_none()
         };
+        // States at the last level of a depth-bounded run are never expanded: they are only
+        // de-duplicated so that the per-state checks run once. For them a 128-bit fingerprint of the
+        // key is stored instead of the key (hash compaction; 16 bytes instead of up to 1 KB).
+        let seen_fp: Vec<Mutex<HashSet<u128>>> = (0..SHARDS).map(|_| Mutex::new(HashSet::new())).collect();
+        let insert_fp = |key: &Vec<u8>| -> bool {
+            let h1 = hash64(key);
+            let h2 = hash64(&(key, 0x9e3779b97f4a7c15u64));
+            let sh = (h1 as usize) % SHARDS;
+            if seen[sh].lock().unwrap().contains_key(key) {
+                return false;
+            }
+            seen_fp[sh].lock().unwrap().insert(((h1 as u128) << 64) | h2 as u128)
+        };
         // merge soundness: fingerprint of all successors (op, return, successor key) of a copy.
         // slot.0 = fingerprint from the canonical copy, slot.1 = from the first re-discovered copy.
         let fingerprint = |q: &AnyQ<H>, unordered: bool| -> u64 {
@@ -934,7 +956,7 @@ impl<'a, H: HB> Explorer<'a, H> {
                                         }
                                         let key = encode_key(ap.q.double(), ap.unordered, &ap.snap);
                                         local.graph_fp = local.graph_fp.wrapping_add(hash64(&(&parent_key, op, format!("{:?}", ap.ret), &key)));
-                                        if insert(&key) {
+                                        if if keep_children || cfg.merge_check { insert(&key) } else { insert_fp(&key) } {
                                             local.states += 1;
                                             local.max_len = local.max_len.max(ap.model.len() as u64);
                                             let child = Node {
@@ -980,7 +1002,7 @@ impl<'a, H: HB> Explorer<'a, H> {
                 }
             });
             frontier = next.into_inner().unwrap();
-            if self.stats.states.load(AO::Relaxed) as usize > cfg.max_states {
+            if self.stats.states.load(AO::Relaxed) as usize > cfg.max_states || rss_gb() > RSS_CAP_GB {
                 self.stats.capped.store(true, AO::Relaxed);
                 break;
             }
